@@ -1,1 +1,3 @@
 import JF.Num.Ops
+import JF.Model.Time
+import JF.Props.C14
